@@ -221,6 +221,15 @@ func runC06(c *Ctx) {
 		c.obI("R06.2", rfc[0], "format-after-content-type-gate", guardedBy(rfc[0], ctc[0], resultEmpty), "the response format is negotiated only when the content-type gate recorded no error", "")
 		// consumer passed to the binder is the per-request one
 	}
+	// both entry points decide the content type BEFORE the response format (same refusal for the same request)
+	if len(ctc) == 1 && len(rfc) == 1 {
+		c.obI("R06.2", rfc[0], "content-type-gate-first", dominates(ctc[0], rfc[0]), "the content-type gate runs before the response-format gate in the reflective entry point (a request wrong on both counts is refused 415/400, as by the generated-server entry point)", "the response format is negotiated before the content type was checked")
+	}
+	for _, n := range callsIn(p.Fn("(*rt/middleware.Context).BindValidRequest"), "rt/middleware.NegotiateContentType") {
+		for _, k := range callsIn(p.Fn("(*rt/middleware.Context).BindValidRequest"), "rt.ContentType") {
+			c.obI("R06.2", n, "typed-content-type-gate-first", !canFollow(n, k), "the generated-server entry point checks the content type before negotiating the response format", "")
+		}
+	}
 	pf := p.Fn("(*rt/middleware.validation).parameters")
 	for _, b := range callsIn(pf, "(*rt/middleware.UntypedRequestBinder).Bind") {
 		_, args := callArgs(b.Common())
